@@ -44,6 +44,7 @@ MUTANTS = [
   "            let filename_root = self.find_root(filename_index);\n            let new_filename_root = self.find_root(new_filename_index);\n            if filename_root < new_filename_root {\n                self.connected_components[new_filename_root] = filename_root;\n            } else {\n                self.connected_components[filename_root] = new_filename_root;\n            }\n",
   "            if filename_index < new_filename_index {\n                let i = self.connected_components[new_filename_index];\n                self.connected_components[i] = filename_index;\n            } else {\n                let i = self.connected_components[filename_index];\n                self.connected_components[i] = new_filename_index;\n            }\n",
   ["C07.add"], []),
+ ("lines", "src/libpatch/modified_file.rs", "            writer.write_all(line)?;\n", "            if !self.deleted { writer.write_all(line)?; }\n", ["C01.write_concat"], ["C04"]),
  ("lines", "src/libpatch/util/lines_with_endings.rs", "if self.previous_offset >= self.input.len() {", "if self.previous_offset > self.input.len() {", ["C01.next_line"], ["C04"]),
  ("names", "src/rapidquilt/apply/common.rs",
   "                        // It exists on disk, lets use it!\n                        old_filename\n                    } else {\n                        // Otherwise we choose new_filename without any additional checks.\n                        // See comment in the last match branch below.\n                        new_filename",
